@@ -651,8 +651,8 @@ pub fn iso() -> IsoCheck<Case> {
     IsoCheck {
         name: "isolated-memory-and-time",
         strategy: Some(Arc::new(|_ctx: &Ctx| case())),
-        quick: 8_000,
-        thorough: 200_000,
+        quick: 16_000,
+        thorough: 400_000,
         fixed: Arc::new(fixed),
         eval: Arc::new(eval),
         stack: 8 << 20,
@@ -675,7 +675,7 @@ pub fn spec() -> PropSpec {
         ],
         checks: vec![
             Box::new(iso()),
-            PropCheck::new("no-panic-in-process", |_| case(), 20_000, 600_000, eval),
+            PropCheck::new("no-panic-in-process", |_| case(), 60_000, 2_000_000, eval),
         ],
     }
 }
